@@ -186,6 +186,23 @@ def run(prog, chk):
             return (True,) + tuple(comps)
         SPELL = ['1.2.3', 'v1.2.3', '0.0.0', '10.20.30', '1.2', 'v7', '1', '', 'v', 'abc', 'v.1.2', '1..2', '1.2.3.4', '1.2.3-rc1', '1.2.3+build5', '01.002.0003', '1.2.x',
                  '99999999999.0.0', '1.99999999999.0', '1.2.99999999999', '2147483647.0.0', '2147483648.0.0', ' 1.2.3', '1.2.3 ', '1.-2.3', 'vv1.2.3', '1.2.', '.1.2']
+        if getattr(chk, 'tier', 'quick') == 'thorough':
+            # thorough tier: a systematic family — optional `v`, one to four components drawn from small / zero-padded / INT_MAX /
+            # just-too-large / far-too-large numerals and two non-numerals, with the separators and tails that occur in release tags
+            comps = ['0', '7', '12', '007', '2147483647', '2147483648', '99999999999', 'x', '']
+            tails = ['', '-rc1', '+b5', ' ', '.']
+            fam = set(SPELL)
+            for pre in ('', 'v'):
+                for a in comps:
+                    for tl in tails:
+                        fam.add(pre + a + tl)
+                    for b in comps:
+                        for tl in tails:
+                            fam.add(pre + a + '.' + b + tl)
+                        for c_ in comps[:7]:
+                            for tl in ('', '-rc1', '.4'):
+                                fam.add(pre + a + '.' + b + '.' + c_ + tl)
+            SPELL = sorted(fam)
         badp = []
         for v in SPELL:
             it = Interp(prog, {})
